@@ -256,7 +256,7 @@ func init() {
 		Cases: func(master uint64, tier string) []Case {
 			n := 700
 			if tier == "thorough" {
-				n = 12000
+				n = 100000
 			}
 			return seqCases(master, n, func(int) int { return 2 })
 		},
